@@ -1,7 +1,7 @@
 """Rules for command semantics: R-DISPATCH (exhaustiveness + effect class + primitive),
 R-ATOMIC (no refusal after a mutation), R-EMPTY (emptied collection is removed)."""
 import re
-from facts import callee, op_local, op_place, const_str
+from facts import callee, op_local, op_place, const_str, op_is_const
 import cfg, shared
 from shared import ENGINE, SERVER
 
@@ -429,3 +429,48 @@ def rule_write_must(ctx, R):
                           "%s (behind %s) can answer success (line %d) on a path that changes nothing: the command creates the key when it is missing, so a success reply without a write leaves the dataset different from the one prescribed" % (
                               fn.split("::")[-1], "/".join(methods[fn]), b.bb_line(e)), b.loc(e), ["bb%d line %d" % (x, b.bb_line(x)) for x in p][-8:])
     R.floor("always_writing_methods_ok_returns", n)
+
+
+# ---- R-BYTES-ENGINE -------------------------------------------------------------------------------
+_PURE_BYTES = re.compile(r"^[&\s]*(mut )?((std::vec::Vec|std::option::Option|std::collections::(HashMap|HashSet|VecDeque|BTreeMap)|std::sync::Arc)<|\(|\)|\[|\]|>|,|\s|&|mut |u8|std::hash::RandomState|std::alloc::Global|'\w+ )+$")
+
+
+def make_bytes_engine_rule(pid):
+    def rule(ctx, R):
+        """binary safety of the command layer: every argument of a storage-engine call whose type
+        is made of bytes only (keys, values, members, fields, field maps) carries the client's
+        bytes -- on its value flow inside the handler (helpers and closures included) there is no
+        lossy or UTF-8-only decoding, case mapping, trimming, cutting, sorting or de-duplication.
+        Numbers and options are parsed into other types and are not on these flows."""
+        import flow, rules_pubsub
+        reach = arms_reach(ctx, NAMES[pid])
+        memo = ctx.memo("bytes_engine_memo", dict)
+        n = 0
+        for fn in sorted(reach):
+            b = ctx.prog.bodies.get(fn)
+            if b is None or not fn.startswith(("network::", "storage::commands::")) or "::tests::" in fn:
+                continue
+            k_site = {}
+            for i, t in b.calls():
+                c = callee(t)
+                if not c.startswith(ENGINE) or b.bbs[i]["cleanup"]:
+                    continue
+                for k, a in enumerate(t["a"][1:], 1):
+                    if op_is_const(a):
+                        continue
+                    ty = b.locals[op_place(a)["l"]] or ""
+                    if "u8" not in ty or not _PURE_BYTES.match(ty):
+                        continue
+                    n += 1
+                    calls = flow.flow_calls(ctx, fn, a, memo=memo, seen={(fn, p) for p in range(1, b.nargs + 1)})
+                    bad = sorted((f_, w, bb_) for (f_, w, bb_) in calls if rules_pubsub.BYTE_ALTERING.search(f_ or ""))
+                    m = c[len(ENGINE):]
+                    j = k_site.get((m, k), 0); k_site[(m, k)] = j + 1
+                    R.inst(fn, "engine-arg:%s#%d" % (m, k), {"function": fn, "engine_method": m, "argument": k, "at": b.loc(i), "calls_on_the_value_flow": len(calls), "byte_altering": [shared.short_callee(x[0]) for x in bad][:3]} if bad or n % 7 == 0 else None)
+                    if bad:
+                        f_, w, bb_ = bad[0]
+                        R.finding(fn, "engine-arg:%s#%d:altered-by:%s" % (m, k, re.search(r"::(\w+)(::<.*>)?$", f_).group(1)),
+                                  "the bytes %s hands to %s (argument %d, line %d) have passed through %s (%s): what is stored / looked up is not what the client sent -- bytes that are not valid UTF-8 are replaced (distinct names collide) or refused" % (
+                                      fn.split("::")[-1], m, k, b.bb_line(i), shared.short_callee(f_), ctx.prog.bodies[w].loc(bb_)), b.loc(i))
+        R.floor("byte_arguments_of_engine_calls", n)
+    return rule
